@@ -291,6 +291,15 @@ impl<K: V + Ord, W: V> V for BTreeMap<K, W> {
     }
     fn near(&self, r: &mut Rng) -> Self {
         let mut m: BTreeMap<K, W> = self.iter().map(|(k, v)| (k.dup(), v.dup())).collect();
+        if self.len() >= 2 && r.chance(1, 2) {
+            let mut it = self.iter();
+            let (k1, v1) = it.next().unwrap();
+            if let Some((k2, v2)) = it.find(|(_, v)| !v.same(v1)) {
+                m.insert(k1.dup(), v2.dup());
+                m.insert(k2.dup(), v1.dup());
+                return m;
+            }
+        }
         if let Some((k, v)) = self.iter().next() {
             if r.chance(1, 2) {
                 m.insert(k.dup(), v.near(r));
@@ -333,6 +342,17 @@ impl<K: V + Eq + std::hash::Hash, W: V> V for HashMap<K, W, SeededState> {
         let mut m = HashMap::with_hasher(SeededState(r.next_u64()));
         for (k, v) in self {
             m.insert(k.dup(), v.dup());
+        }
+        // the same keys and the same values in another assignment (seeded
+        // change C13-4: values must stay bound to their keys)
+        if self.len() >= 2 && r.chance(1, 2) {
+            let mut it = self.iter();
+            let (k1, v1) = it.next().unwrap();
+            if let Some((k2, v2)) = it.find(|(_, v)| !v.same(v1)) {
+                m.insert(k1.dup(), v2.dup());
+                m.insert(k2.dup(), v1.dup());
+                return m;
+            }
         }
         if let Some((k, v)) = self.iter().next() {
             if r.chance(1, 2) {
